@@ -363,6 +363,68 @@ def validate_traces(traces, mode, nvals, scratch, verdict: Verdict, tag):
 # ---------------------------------------------------------------------------
 
 
+def real_store_traces(scratch, tier, seed, v):
+    """Both stores of real importance-sampler runs, call by call, as traces of OrderedSamples.tla."""
+    import os
+
+    from .nsruns import ins_spec, run_corpus
+    from .pack import load_events
+
+    sd = seed * 1000 + 40
+    specs = [ins_spec("gauss2", sd + 1, 100), ins_spec("rosen2", sd + 2, 100, strict_threshold=True),
+             ins_spec("gauss2", sd + 3, 60, replace_all=True, max_iteration=4),
+             ins_spec("gauss4", sd + 4, 80, strict_threshold=True, replace_all=True, max_iteration=4),
+             ins_spec("rosen2", sd + 5, 100, draw_constant=False, draw_iid_live=False)]
+    if tier == "thorough":
+        specs += [ins_spec(m, sd + 10 + i, 100, strict_threshold=st, replace_all=ra, max_iteration=5)
+                  for i, (m, st, ra) in enumerate((m, st, ra) for m in ("gauss2", "rosen2", "gauss4")
+                                                  for st in (False, True) for ra in (False, True))]
+    for s_ in specs:
+        s_["extra"] = {"trace_stores": True}
+    hs = run_corpus(specs, scratch / "ins")
+    by_mode = {}
+    n_calls = 0
+    for h in hs:
+        if h["codes"][-1] != 0:
+            v.mismatch(f"real INS run for the store traces did not complete: {h['codes']}")
+            continue
+        raw = [e for e in load_events([f for f in h["events"] if os.path.exists(f)]) if e["ev"] == "os"]
+        for store in ("tr", "iid"):
+            evs = [e for e in raw if e["store"] == store]
+            if not evs:
+                continue
+            vals = sorted({x for e in evs for x in e["logL"]} | {x for e in evs for x in e["b"]}
+                          | {e["t"] for e in evs if e["t"] is not None})
+            rank = {x: i + 1 for i, x in enumerate(vals)}
+            ids = {}
+            trace = []
+            for e in evs:
+                for hsh in e["ids"]:
+                    ids.setdefault(hsh, len(ids) + 1)
+                dense = [ids[hsh] for hsh in e["ids"]]
+                trace.append({
+                    "op": e["op"], "b": [rank[x] for x in e["b"]], "t": 0 if e["t"] is None else rank[e["t"]],
+                    "L": [rank[x] for x in e["logL"]], "ids": dense,
+                    "rows": dense if e["rows"] == len(dense) else [],
+                    "live": e["live"] or [], "liveNone": e["live"] is None, "nested": e["nested"],
+                    "thr": 0 if e["thr"] is None else rank[e["thr"]],
+                    "ret": -1 if e["ret"] is None else e["ret"], "content": True})
+            n_calls += len(trace)
+            mode = (evs[0]["strict"], evs[0]["replace_all"])
+            by_mode.setdefault(mode, []).append((trace, len(vals), h["spec"]))
+    n_ok = states = trans = 0
+    for mode, items in by_mode.items():
+        # ids of a real store are only dense per trace: the trace spec needs ids 1..n in order of insertion
+        traces = [t for t, _, _ in items]
+        nvals = max(n for _, n, _ in items)
+        ok, tres = validate_traces(traces, mode, nvals, scratch, v, f"real_{mode[0]}_{mode[1]}")
+        n_ok += ok
+        states += tres.distinct
+        trans += tres.generated
+    v.note(f"real INS stores: {n_ok} store traces ({n_calls} OrderedSamples calls) validated against OrderedSamples.tla")
+    return n_ok, n_calls, states, trans
+
+
 def main(tier: str) -> int:
     seed = seed_from_env()
     v = Verdict(PROP, tier, seed, "model_checking")
@@ -415,9 +477,11 @@ def main(tier: str) -> int:
                 if len(samples) < 3:
                     samples.append({"kind": "random trace (first 3 events)", "mode": mode,
                                     "events": traces[0][:3]})
+        r_ok, r_calls, r_states, r_trans = real_store_traces(scratch, tier, seed, v)
     v.coverage = {
-        "states": states, "transitions": trans,
-        "traces_validated_against_impl": n_traces_ok,
+        "states": states + r_states, "transitions": trans + r_trans,
+        "traces_validated_against_impl": n_traces_ok + r_ok,
+        "real_ins_store_traces": r_ok, "real_ins_store_calls": r_calls,
         "edges_replayed_on_real_object": stats["edges"],
         "instantiations": insts,
         "distinct_edge_kinds": len(stats["kinds"]),
